@@ -324,6 +324,29 @@ def programs_signed(tier):
     progs.append(Program("sg20", structs=[S("sg20", 20, [
         F("a", T_i(8), [(4, 4), (0, 4)], array=(2, 10)),  # signed split array elements in an arbitrary base: 0..7, 10..17
     ])], props=("C05", "C04", "C03", "C11", "C16")))
+    # signed fields over LISTS in the rarer shapes (round-6 seeds C05-k/l, C02-k, C12-k): all-adjacent ascending entries (a normaliser
+    # could fold them into one range), a shuffled list whose top-bit range is not the last entry, 3 entries of unequal lengths with
+    # a single bit, and wide (i64) lists in 128-bit storage, native and arbitrary
+    progs.append(Program("sgl32", structs=[S("sgl32", 32, [
+        F("adj", T_i(8), [(8, 7), (15, 1)]),                       # 8..=14, 15: adjacent ascending
+        F("top", T_i(8), [(28, 4), (16, 4)]),                      # top-bit range listed FIRST
+        F("k", T_u(4), (20, 4)),
+    ])], props=("C05", "C04", "C16", "C12", "C13")))
+    progs.append(Program("sgl128", structs=[S("sgl128", 128, [
+        F("x", T_i(64), [(96, 32), (3, 1), (10, 31)]),             # 96..=127, 3, 10..=40: shuffled, unequal, single bit, top bit first
+        F("adj", T_i(16), [(48, 8), (56, 4), (60, 4)]),            # three adjacent ascending entries ending at bit 63
+        F("n", T_u(5), (4, 5)),
+    ])], props=("C05", "C04", "C16", "C12")))
+    progs.append(Program("sgl100", structs=[S("sgl100", 100, [
+        F("sig", T_i(64), [(70, 20), (3, 1), (20, 43)]),           # last-listed range ends at bit 62, far below the top
+        F("a", T_u(7), (63, 7)),
+        F("b", T_u(10), (90, 10)),
+        F("adj", T_i(8), [(4, 4), (8, 4)], array=None),
+    ])], props=("C05", "C04", "C11", "C16", "C12")))
+    progs.append(Program("sga100", structs=[S("sga100", 100, [
+        F("sample", T_i(32), (4, 32), array=(2, 40)),              # signed array with stride > width in an arbitrary base: 4..=35, 44..=75
+        F("top", T_i(8), (92, 8)),                                 # signed native field ending at the top EXPOSED bit
+    ])], props=("C05", "C03", "C11", "C16", "C12")))
     if tier == "thorough":
         progs.append(Program("sg127", structs=[S("sg127", 127, [
             F("a", T_i(64), (63, 64)),
@@ -368,6 +391,16 @@ def programs_defaults(tier):
     progs.append(Program("df1", structs=[S("df1", 1, [F("a", T_bool(), (0, 1))], default=Default(1, "="))], props=("C06", "C11", "C13", "C01", "C02")))
     progs.append(Program("df2", structs=[S("df2", 2, [F("a", T_u(2), (0, 2))], default=Default(2, ":"))], props=("C06", "C11", "C13", "C01", "C02")))
     progs.append(Program("df64", structs=[S("df64", 64, [F("a", T_u(64), (0, 64))], default=Default(0))], props=("C06", "C13")))
+    # defaults with the TOP bit and bit 0 set on arbitrary bases next to every native-width boundary, as a named constant and as a
+    # literal (seed C06-k: `exposed / 8` picked a 64-bit conversion for u65..u71 named constants)
+    for n in (9, 17, 31, 33, 63, 65, 68, 71, 73, 96, 127):
+        v = (1 << (n - 1)) | (0x5 << (n // 2)) | 1
+        progs.append(Program(f"dfc{n}", structs=[S(f"dfc{n}", n, [F("t", T_bool(), (n - 1, 1)), F("a", T_u(2), (0, 2))],
+                                                  default=Default(v, "=" if n % 2 else ":", const_name=f"DFC{n}_DEFAULT"))], props=("C06",)))
+    for n in (33, 65, 71, 127):
+        v = (1 << (n - 1)) | (0x3 << (n // 2)) | 2
+        progs.append(Program(f"dfl{n}", structs=[S(f"dfl{n}", n, [F("t", T_bool(), (n - 1, 1)), F("a", T_u(2), (0, 2))],
+                                                  default=Default(v, ":" if n % 2 else "="))], props=("C06",)))
     return progs
 
 
@@ -486,6 +519,18 @@ def programs_enum_fields(tier):
         F("d", FT("nested", 72, in72), [(0, 40), (96, 32)]),   # wide nested type over two ranges, the second ending at the top bit
         F("k", T_u(56), (40, 56)),
     ])], props=("C08", "C04", "C16")))
+    in80 = Struct("In80", 80, [F("payload", T_u(64), (8, 64)), F("tag", T_u(8), (0, 8)), F("crc", T_u(8), (72, 8))])
+    progs.append(Program("nestw3", structs=[in80, S("nestw3", 120, [
+        F("descriptor", FT("nested", 80, in80), [(60, 50), (4, 30)]),   # DESCENDING list: value bits 50..79 land in the low storage half
+        F("k", T_u(4), (0, 4)),
+    ])], props=("C08", "C04", "C11", "C16")))
+    e10 = mk_enum("Ef10", 10, None, values=[0x3FF, 0, 0x2AA, 0x155, 1])
+    in10 = Struct("In10", 10, [F("lo", T_u(5), (0, 5)), F("hi", T_u(5), (5, 5))])
+    progs.append(Program("efw100", enums=[e10], structs=[in10, S("efw100", 100, [
+        F("ops", T_enum(e10), [(0, 2), (3, 8)], array=(9, 11)),         # list-array of Option<enum> in 128-bit storage: elements cross bit 64
+    ]), S("efw128", 128, [
+        F("cells", FT("nested", 10, in10), [(5, 8), (0, 2)], array=(9, 14)),   # nested list-array, descending, element 4 straddles bit 64
+    ], name="Sefw128")], props=("C08", "C04", "C03", "C11", "C16")))
     in128 = Struct("In128", 128, [F("lo", T_u(64), (0, 64)), F("hi", T_u(64), (64, 64))])
     progs.append(Program("nestfull128", structs=[in128, S("nestfull128", 128, [F("inner", FT("nested", 128, in128), (0, 128))])],
                          props=("C08", "C16")))
